@@ -530,6 +530,27 @@ theorem mpool_engage_stores_inside_zone (b n e fuel : Nat) (he : 8 ≤ e) :
   have := engageEvs_inside e b n he fuel 0 (Nat.zero_le _)
   simpa using this
 
+/-- no store of a pool request (the links written by `pool_engage` into a new
+zone, the link written by `pool_free`) touches a cell that is handed out before
+and after the request (element sizes ≥ 8 = size of the link) … -/
+theorem mpool_no_clobber (ops : List MOp) (s s' : MState) (op : MOp) (r : Option Nat)
+    (hr : mrun MState.init ops = some s) (hs : mstep s op = some (s', r))
+    (h8 : ∀ z ∈ s'.zones, 8 ≤ z.elemsz) :
+    ∀ ev ∈ mstepEvs s op, ∀ c ∈ s.live, c ∈ s'.live → ∀ z ∈ s'.zones, InZone z c →
+      ev.Avoids c (c + z.elemsz) :=
+  mstep_evs_avoid (mrun_inv MInv.init hr) hs h8
+
+/-- … so over a whole multi-zone history the contents of a handed-out cell stay
+untouched until it is freed: as long as no request frees it, it stays handed
+out and every byte keeps its value in every memory that can result -/
+theorem mpool_contents_untouched_until_freed (ops0 ops : List MOp) (s s' : MState) (evs : List Ev)
+    (hr : mrun MState.init ops0 = some s) (hs : mrunE s ops = some (s', evs))
+    (h8 : ∀ z ∈ s'.zones, 8 ≤ z.elemsz) (c : Nat) (hc : c ∈ s.live)
+    (hne : ∀ op ∈ ops, op ≠ .free c) (z : Zone) (hz : z ∈ s.zones) (hzc : InZone z c)
+    (m m' : Mem) (hx : Exec m evs m') :
+    c ∈ s'.live ∧ ∀ x, c ≤ x → x < c + z.elemsz → m' x = m x :=
+  mrunE_frame (mrun_inv MInv.init hr) hs h8 hc hne hz hzc hx
+
 /-- the `next`-pointer routines implement every multi-zone history: the same
 pointers are returned and the links always represent the model's list (`head` =
 address of `pool->free_blocks`, outside every zone) -/
@@ -792,6 +813,8 @@ example : ∃ s, mrun MState.init [.engage 16 64 16, .alloc, .alloc, .free 64, .
     s.pool.free = [136, 144, 128, 120, 112, 104, 64, 32, 16] ∧
     (mrunP 0 (slistInit (fun _ => 0) 0) [.engage 16 64 16, .alloc, .alloc, .free 64, .engage 104 48 8, .alloc, .alloc,
       .free 144, .free 136]) 136 = 144 := ⟨_, rfl, by decide, by decide, by decide⟩
+example : ∃ x, mrunE ⟨⟨[32, 16]⟩, [64, 48], [⟨16, 64, 16⟩]⟩ [.engage 104 48 8, .free 64, .alloc] = some x ∧
+    48 ∈ x.1.live ∧ x.2.length = 7 ∧ (∀ z ∈ x.1.zones, 8 ≤ z.elemsz) := ⟨_, rfl, by decide, by decide, by decide⟩
 example : ∃ p, sxrun 16 (SOPx.init 12 4 2) [.create, .create, .engage 64 2, .create, .destroy 16, .create] = some p ∧
     p.sop.objs = [16, 80, 0] ∧ p.ctor = [16, 80, 0, 16] ∧ p.dtor = [16] := ⟨_, rfl, by decide⟩
 
